@@ -865,7 +865,29 @@ class V:
                     out.append(self.ev(node.elt))
                 self.env = saved
                 return PyTuple(out)
-            return Unknown("comprehension over a computed sequence")
+            # a computed sequence: the element expression once, for a generic element (counter k in [0, N))
+            sh = self.sh
+            sh.nloop += 1
+            kname = f"@k{sh.nloop}"
+            sh.index_syms.add(kname)
+            k = F.sym(kname)
+            elem, n = self._elem(g.iter, k)
+            if n is None or n == "unroll" or is_unknown(elem):
+                return Unknown("comprehension over a sequence that is not understood")
+            saved = dict(self.env)
+            self.assign(g.target, elem, node)
+            rec = LoopRec(k, n, node, tuple(sh.loop_stack))
+            sh.loops.append(rec)
+            sh.loop_stack.append(rec)
+            v = self.ev(node.elt)
+            sh.loop_stack.pop()
+            self.env = saved
+            if is_unknown(v):
+                return v
+            try:
+                return F.fn("comp", k, as_rat(n), as_rat(v))
+            except Unsupported as e:
+                return Unknown(str(e))
         if isinstance(node, ast.Dict) and all(isinstance(k, ast.Constant) for k in node.keys):
             return DictValue({k.value: self.ev(v) for k, v in zip(node.keys, node.values)})
         if isinstance(node, ast.NamedExpr):
@@ -1149,6 +1171,7 @@ class V:
             return v
         if name == "np.where" and n == 3 and not kw:
             c = self.truth(pos[0])
+            self.sh.tests.append((pos[0], c, node, tuple(self.sh.loop_stack)))
             if c is not None:
                 return pos[1] if c else pos[2]
             return self.ite(pos[0], pos[1], pos[2])
